@@ -67,6 +67,12 @@ func TestC08(t *testing.T) {
 			}
 		}
 		pool := ops.BuildPool(int(seed))
+		for i, sp := range pool.Specs {
+			if _, err := gen.BuildFile(sp); err != nil {
+				rec.Fail("pool", "HARNESS", fmt.Sprintf("pool File %d cannot be built: %v", i, err), history{Seed: seed})
+				return
+			}
+		}
 		dir, err := os.MkdirTemp(os.Getenv("VERIF_BUILD"), "c08pool")
 		if err != nil {
 			t.Fatal(err)
